@@ -21,7 +21,8 @@
 //!   mint N op*      op = a|s <script bytes> <policy> <w|r|p<lang>|q<lang>> <refhash|-> <refidx> <name> <amount>   (w/r native script as witness / reference input, p/q Plutus)   (MintBuilder add_asset / set_asset)
 //!     -> ok bytes=<Mint to_bytes> e=<…> | err
 //!   tx I n (<hash> <idx>)* C n (…)* F <0|1> SI n (<script> <w|r> <hash> <idx> <refhash|-> <refidx>)* RE n (<hash> <idx> <size>)*
-//!      G n <keyhash>* M (~ | n mintop*) XD n datum*
+//!      G n <keyhash>* M (~ | n mintop*) XD n datum* [PI n (<lang> <script> <datum|~> <hash> <idx>)*] [PW n (<lang> <script> <datum|~>)*]
+//!      [PC n (<lang> <script> <datum|~> <kind>)*] [NW n <native script>*] [NC n (<native script> <kind>)*]
 //!     -> ok ins= coll= refs= sig= mint= ns= pd= det=<1 when 3 builds, a rebuilt builder and a second process all gave the same bytes> | err
 #![allow(deprecated)]
 use cardano_serialization_lib::*;
@@ -541,18 +542,25 @@ fn make_builder(toks: &[String]) -> TransactionBuilder {
     };
     if p.i < toks.len() && p.peek() == "PI" { p.next();
         for _ in 0..p.count() { let w = pwit(&mut p, RedeemerTag::new_spend()); let input = read_txin(&mut p); ins.add_plutus_script_input(&w, &input, &ada(4_000_000)); } }
-    if p.i < toks.len() && p.peek() == "PW" { p.next(); let mut wb = WithdrawalsBuilder::new();
-        for _ in 0..p.count() { let w = pwit(&mut p, RedeemerTag::new_reward());
-            let addr = RewardAddress::new(0, &Credential::from_scripthash(&w.script().unwrap().hash()));
-            wb.add_with_plutus_witness(&addr, &BigNum::from(1_000_000u64), &w).expect("withdrawal"); }
-        tb.set_withdrawals_builder(&wb); }
-    if p.i < toks.len() && p.peek() == "PC" { p.next(); let mut cb = CertificatesBuilder::new();
-        for _ in 0..p.count() { let w = pwit(&mut p, RedeemerTag::new_cert()); let kind = p.u64();
-            let cred = Credential::from_scripthash(&w.script().unwrap().hash());
-            let cert = if kind == 0 { Certificate::new_stake_deregistration(&StakeDeregistration::new(&cred)) }
-                       else { Certificate::new_vote_delegation(&VoteDelegation::new(&cred, &DRep::new_always_abstain())) };
-            cb.add_with_plutus_witness(&cert, &w).expect("certificate"); }
-        tb.set_certs_builder(&cb); }
+    let mut wb = WithdrawalsBuilder::new(); let mut cb = CertificatesBuilder::new(); let (mut has_w, mut has_c) = (false, false);
+    let mut plutus_w: Vec<PlutusWitness> = Vec::new(); let mut plutus_c: Vec<(PlutusWitness, u64)> = Vec::new();
+    if p.i < toks.len() && p.peek() == "PW" { p.next(); for _ in 0..p.count() { plutus_w.push(pwit(&mut p, RedeemerTag::new_reward())); } }
+    if p.i < toks.len() && p.peek() == "PC" { p.next(); for _ in 0..p.count() { let w = pwit(&mut p, RedeemerTag::new_cert()); let kind = p.u64(); plutus_c.push((w, kind)); } }
+    let cert_of = |cred: &Credential, kind: u64| if kind == 0 { Certificate::new_stake_deregistration(&StakeDeregistration::new(cred)) }
+                  else { Certificate::new_vote_delegation(&VoteDelegation::new(cred, &DRep::new_always_abstain())) };
+    // withdrawals / certificates witnessed by inline native scripts (insertion order = order of the tokens), then the Plutus ones
+    if p.i < toks.len() && p.peek() == "NW" { p.next();
+        for _ in 0..p.count() { let script = NativeScript::from_bytes(p.bytes()).unwrap(); has_w = true;
+            wb.add_with_native_script(&RewardAddress::new(0, &Credential::from_scripthash(&script.hash())), &BigNum::from(1_000_000u64), &NativeScriptSource::new(&script)).expect("withdrawal"); } }
+    if p.i < toks.len() && p.peek() == "NC" { p.next();
+        for _ in 0..p.count() { let script = NativeScript::from_bytes(p.bytes()).unwrap(); let kind = p.u64(); has_c = true;
+            cb.add_with_native_script(&cert_of(&Credential::from_scripthash(&script.hash()), kind), &NativeScriptSource::new(&script)).expect("certificate"); } }
+    for w in &plutus_w { has_w = true;
+        wb.add_with_plutus_witness(&RewardAddress::new(0, &Credential::from_scripthash(&w.script().unwrap().hash())), &BigNum::from(1_000_000u64), w).expect("withdrawal"); }
+    for (w, kind) in &plutus_c { has_c = true;
+        cb.add_with_plutus_witness(&cert_of(&Credential::from_scripthash(&w.script().unwrap().hash()), *kind), w).expect("certificate"); }
+    if has_w { tb.set_withdrawals_builder(&wb); }
+    if has_c { tb.set_certs_builder(&cb); }
     tb.set_inputs(&ins);
     tb.add_output(&TransactionOutput::new(&EnterpriseAddress::new(0, &Credential::from_keyhash(&keyhash(1, 22))).to_address(), &ada(2_000_000))).unwrap();
     tb.set_fee(&BigNum::from(250_000u64));
@@ -578,8 +586,8 @@ fn exec_tx(toks: &[String], second_process: bool) -> String {
     // what is judged is the EMITTED witness set: its bytes decoded again
     let ws = match TransactionWitnessSet::from_bytes(tx.witness_set().to_bytes()) { Ok(w) => w, Err(_) => return "ok undecodable-witness-set".into() };
     let sig = match body.required_signers() { None => "-".into(), Some(s) => csv(&(0..s.len()).map(|i| hx(&bstr(&s.get(i).to_bytes()))).collect::<Vec<_>>()) };
-    let mut ns: Vec<String> = ws.native_scripts().map(|v| (0..v.len()).map(|i| hx(&v.get(i).to_bytes())).collect()).unwrap_or_default();
-    ns.sort();
+    // native scripts in EMITTED order (first-insertion order of the builder's combination)
+    let ns: Vec<String> = ws.native_scripts().map(|v| (0..v.len()).map(|i| hx(&v.get(i).to_bytes())).collect()).unwrap_or_default();
     let mut pd: Vec<String> = ws.plutus_data().map(|v| (0..v.len()).map(|i| hx(&v.get(i).to_bytes())).collect()).unwrap_or_default();
     pd.sort();
     let mut ps: Vec<String> = Vec::new();
@@ -870,11 +878,19 @@ fn gen_tx(r: &mut Rng, out: &mut Out, thorough: bool) {
             let np = r.range(1, 4); line += &format!(" PI {}", np);
             for k in 0..np { let (l, sb) = plutus_script(r.below(3)); let d = if r.chance(1, 5) { "~".to_string() } else { gen_datum(r) };
                 line += &format!(" {} {} {} {} {}", l, hx(&sb), d, hx(&fill(k, 71, 32)), 50 + k); }
-            if r.chance(1, 3) { let ids: Vec<u64> = (0..3).filter(|_| r.chance(1, 2)).collect(); line += &format!(" PW {}", ids.len());
+            { let ids: Vec<u64> = if r.chance(1, 3) { (0..3).filter(|_| r.chance(1, 2)).collect() } else { vec![] }; line += &format!(" PW {}", ids.len());
                 for id in ids { let (l, sb) = plutus_script(id); let d = if r.chance(2, 3) { "~".to_string() } else { gen_datum(r) }; line += &format!(" {} {} {}", l, hx(&sb), d); } }
-            if r.chance(1, 3) { let mut pairs: Vec<(u64, u64)> = Vec::new(); for id in 0..3 { for k in 0..2 { if r.chance(1, 3) { pairs.push((id, k)); } } }
+            { let mut pairs: Vec<(u64, u64)> = Vec::new(); if r.chance(1, 3) { for id in 0..3 { for k in 0..2 { if r.chance(1, 3) { pairs.push((id, k)); } } } }
                 line += &format!(" PC {}", pairs.len());
                 for (id, k) in pairs { let (l, sb) = plutus_script(id); let d = if r.chance(2, 3) { "~".to_string() } else { gen_datum(r) }; line += &format!(" {} {} {} {}", l, hx(&sb), d, k); } }
+        }
+        // withdrawals and certificates witnessed by several DIFFERENT inline native scripts (plus repeats of a script across items)
+        if r.chance(1, 2) {
+            let mut ids: Vec<u64> = (0..8).filter(|_| r.chance(1, 2)).collect(); if r.chance(1, 2) { ids.reverse(); }
+            if !line.contains(" PI ") { line += " PI 0 PW 0 PC 0"; }
+            line += &format!(" NW {}", ids.len()); for id in &ids { line += &format!(" {}", hx(&native_script(*id).to_bytes())); }
+            let mut pairs: Vec<(u64, u64)> = Vec::new(); for _ in 0..r.below(7) { let p = (r.below(8), r.below(2)); if !pairs.contains(&p) { pairs.push(p); } }
+            line += &format!(" NC {}", pairs.len()); for (id, k) in &pairs { line += &format!(" {} {}", hx(&native_script(*id).to_bytes()), k); }
         }
         let toks: Vec<String> = line.split_whitespace().map(|s| s.to_string()).collect();
         out.emit(&line, &guarded(move || exec(&toks)));
